@@ -433,15 +433,48 @@ func UsedTypes() map[uint64]bool {
 	return used
 }
 
-// JunkTypes returns unused type numbers: non-critical ones (even, > 31) and critical ones.
-func JunkTypes() (noncrit, crit []uint64) {
-	used := UsedTypes()
-	for _, t := range []uint64{240, 250, 252, 1000, 65000, 65536, 1 << 32, 1<<33 + 2, 1<<63 + 4} {
+// TypeSet is the set of type numbers used by model m at any nesting depth.
+func (m *Model) TypeSet() map[uint64]bool {
+	used := map[uint64]bool{}
+	var addK func(mm *Model, k *Kind)
+	var addM func(mm *Model)
+	seen := map[*Model]bool{}
+	addK = func(mm *Model, k *Kind) {
+		switch k.Tag {
+		case "struct":
+			addM(mm.Inner(k))
+		case "seq":
+			addK(mm, k.Sub)
+		case "map":
+			used[k.ValTyp] = true
+			addK(mm, k.Key)
+			addK(mm, k.Val)
+		}
+	}
+	addM = func(mm *Model) {
+		if seen[mm] {
+			return
+		}
+		seen[mm] = true
+		for i := range mm.Fields {
+			used[mm.Fields[i].Typ] = true
+			addK(mm, &mm.Fields[i].K)
+		}
+	}
+	addM(m)
+	return used
+}
+
+// JunkTypes returns type numbers model m does not use at any depth: non-critical ones (even, > 31)
+// and critical ones (<= 31 or odd), boundary values of the critical-bit rule first.
+func (m *Model) JunkTypes() (noncrit, crit []uint64) {
+	used := m.TypeSet()
+	for _, t := range []uint64{32, 34, 240, 250, 252, 1000, 65000, 65536, 1 << 32, 1<<33 + 2, 1<<63 + 4} {
 		if !used[t] {
 			noncrit = append(noncrit, t)
 		}
 	}
-	for _, t := range []uint64{3, 11, 31, 241, 251, 1001, 65001, 65537, 1<<32 + 1} {
+	for _, t := range []uint64{31, 33, 30, 3, 11, 241, 251, 1001, 65001, 65537, 1<<32 + 1} {
 		if !used[t] {
 			crit = append(crit, t)
 		}
